@@ -140,10 +140,14 @@ func TestHTTPRequestObservesPolicyCancellation(t *testing.T) {
 			io.Copy(io.Discard, resp.Body)
 			resp.Body.Close()
 		}
-		select {
-		case <-abandoned:
-		case <-harness.After(20 * time.Second):
-			bad("request-ignores-policy-cancellation", "the call returned, but 20 s later the server still holds the cancelled attempt's request open: its context was never done")
+		if served.Load() >= 1 {
+			// (a limit of a few milliseconds can elapse before the request has left the client: then there is nothing for
+			// the server to see)
+			select {
+			case <-abandoned:
+			case <-harness.After(20 * time.Second):
+				bad("request-ignores-policy-cancellation", "the call returned, but 20 s later the server still holds the cancelled attempt's request open: its context was never done")
+			}
 		}
 		b, _ := json.Marshal(sc)
 		st.Case(string(b), sc.ReqCtx != "background" || sc.ExecCtx != "none", "source="+sc.Source, "via="+sc.Via, "req="+sc.ReqCtx)
